@@ -52,6 +52,10 @@ pub struct Case {
     /// (same row count, different L-M+1: the buffer's bookkeeping must follow)
     #[serde(default)]
     pub first_width: usize,
+    /// 0 = the sequence is striped by the library; k >= 1 = it is built through `StripedSequence::new` from
+    /// a hand-filled matrix with k-1 spare rows and arbitrary symbols in the cells that hold no position
+    #[serde(default)]
+    pub via_new: u8,
 }
 
 pub struct ScoreSub;
@@ -81,10 +85,10 @@ fn case_strategy(tier: Tier) -> BoxedStrategy<Case> {
                 seq_mat,
                 prop_oneof![3 => Just(0usize), 1 => 1usize..=3, 1 => 30usize..=40],
                 (0u8..=16, 0u8..=16),
-                (prop_oneof![2 => Just(0usize), 1 => 1usize..=50], prop_oneof![1 => Just(0usize), 1 => 1usize..=8]),
+                (prop_oneof![2 => Just(0usize), 1 => 1usize..=50], prop_oneof![1 => Just(0usize), 1 => 1usize..=8], prop_oneof![5 => Just(0u8), 1 => Just(1u8), 1 => 2u8..=4]),
             )
         })
-        .prop_map(|(abc, cols, (seq, mat), extra_wrap, sub, (prev_rows, first_width))| Case { abc, cols, seq, mat, extra_wrap, sub, prev_rows, first_width })
+        .prop_map(|(abc, cols, (seq, mat), extra_wrap, sub, (prev_rows, first_width, via_new))| Case { abc, cols, seq, mat, extra_wrap, sub, prev_rows, first_width, via_new })
         .boxed()
 }
 
@@ -94,7 +98,7 @@ impl Sub for ScoreSub {
         "score"
     }
     fn rule(&self) -> &'static str {
-        "alphabet x layout x boundary-biased length x sequence mode x matrix regime (library / finite / -inf / small-int) x width 1..70 (and, 1 case in 13, width 100..400 on a sequence with only 0..40 valid positions) x extra wrap x row sub-range x reused buffer; every backend implemented for the layout (generic, sse2, avx2, dispatch forced to each arm) and every read-out path compared with a linear-sequence reference; sweep = every length 0..70 (thorough ..1100) x 4 widths x both alphabets x 16/32 columns, plus sequences of more than 65536 striped rows; non-trivial = L >= M and R >= 2 (distinct by full case)"
+        "alphabet x layout x boundary-biased length x sequence mode x matrix regime (library / finite / -inf / small-int) x width 1..70 (and, 1 case in 13, width 100..400 on a sequence with only 0..40 valid positions) x extra wrap x row sub-range x reused buffer x sequence striped by the library or (2 in 7) built through StripedSequence::new from a hand-filled matrix with arbitrary symbols in the unused cells and 0..3 spare rows; every backend implemented for the layout (generic, sse2, avx2, dispatch forced to each arm) and every read-out path compared with a linear-sequence reference; sweep = every length 0..70 (thorough ..1100) x 4 widths x both alphabets x 16/32 columns, plus sequences of more than 65536 striped rows; non-trivial = L >= M and R >= 2 (distinct by full case)"
     }
     fn cases(&self, tier: Tier) -> u64 {
         tier.pick(100_000, 3_000_000)
@@ -123,6 +127,7 @@ impl Sub for ScoreSub {
                             sub: (4, 12),
                             prev_rows: l % 3,
                             first_width: l % 2,
+                            via_new: 0,
                         });
                     }
                 }
@@ -146,6 +151,7 @@ impl Sub for ScoreSub {
                 sub: (0, 16),
                 prev_rows: 0,
                 first_width: 0,
+                via_new: 0,
             });
         }
         out
@@ -188,7 +194,7 @@ fn prepare<A: Alphabet, C: PositiveLength>(case: &Case) -> Prepared<A, C> {
     let cells = case.mat.cells();
     let pssm = build_pssm::<A>(&case.mat);
     let symbols = syms::<A>(&idx);
-    let mut striped: StripedSequence<A, C> = Pipeline::<A, _>::generic().stripe(&symbols);
+    let mut striped: StripedSequence<A, C> = if case.via_new > 0 { striped_via_new::<A, C>(&idx, case.via_new as usize - 1, idx.len() as u64 + 17) } else { Pipeline::<A, _>::generic().stripe(&symbols) };
     striped.configure_wrap(cells.len() - 1 + case.extra_wrap);
     let rows = striped.matrix().rows() - striped.wrap();
     let (a, b) = (case.sub.0.min(case.sub.1) as usize, case.sub.0.max(case.sub.1) as usize);
@@ -361,6 +367,8 @@ fn classify<C: PositiveLength>(case: &Case, l: usize, m: usize, rows: usize, sub
     info.class_if(sub.is_empty(), "empty-subrange");
     info.class_if(m - 1 + case.extra_wrap > rows, "wrap>R");
     info.class_if(case.prev_rows > 0, "reused-buffer");
+    info.class_if(case.via_new == 1, "built-by-StripedSequence::new(arbitrary-padding)");
+    info.class_if(case.via_new > 1, "built-by-StripedSequence::new(spare-rows)");
     info.class(match case.cols {
         Cols::U1 => "C=1",
         Cols::U2 => "C=2",
